@@ -308,6 +308,9 @@ def _check_directory_structure_validity(paths):
     paths = list(paths)
     # Collect all nodes first, so that the check does not depend on the order of paths.
     check = set()
+    if len(paths) > 1:
+        # The root of the path structure is a node of every other path.
+        check.update((os.curdir, ""))
     for dst in paths:
         tokens = dst.split(os.path.sep)
         for i in range(1, len(tokens)):
